@@ -10,7 +10,7 @@
 From Coq Require Import List ZArith Bool String Lia.
 From YV Require Import Gen.FoldGen Opt.Fold Opt.FoldProofs
   Gen.BoundsGen Opt.Bounds Opt.BoundsProofs
-  Gen.FastScanGen Opt.FastScan Opt.FastScanProofs
+  Gen.FastScanGen Opt.FastScan Opt.FastScanProofs Gen.HoistGen Opt.Hoist Opt.HoistProofs
   Pat.Teddy Pat.TeddyProofs.
 Import ListNotations.
 Local Open Scope Z_scope.
@@ -139,6 +139,53 @@ Print Assumptions fast_scan_same_verdicts.
 Theorem fast_scan_verdicts : fast_statement of_anchor_disallows_fast_scan.
 Proof. exact (fast_statement_holds of_anchor_disallows_fast_scan). Qed.
 Print Assumptions fast_scan_verdicts.
+
+(* ---------------------------------------------------------------- grouping of regexps *)
+(* operands `x matches /re/` of one `or` that land in the same bucket are
+   evaluated on the left operand of the first member: equal to evaluating
+   every operand on its own left operand when the key separates left operands
+   that can differ *)
+Theorem regex_grouping_sound : forall mt ops, key_sound mt ops -> or_grouped mt ops = or_ungrouped mt ops.
+Proof. exact HoistProofs.grouping_sound. Qed.
+Print Assumptions regex_grouping_sound.
+
+Theorem regex_grouping_needs_the_key :
+  exists mt ops, or_ungrouped mt ops = true /\ or_grouped mt ops = false.
+Proof. exact HoistProofs.grouping_unsound_without_key. Qed.
+Print Assumptions regex_grouping_needs_the_key.
+
+(* the key, as coded, is a hash fed with every node of the left operand
+   (generated fact; 64-bit hash collisions are not modelled) *)
+Theorem regex_set_key_covers_the_left_operand : regex_set_key_hashes_whole_lhs = true.
+Proof. reflexivity. Qed.
+Print Assumptions regex_set_key_covers_the_left_operand.
+
+(* ---------------------------------------------------------------- hoisting: displaced variables *)
+Theorem shift_all_keeps_apart : forall from k (nodes : list (list Z)), 0 < k ->
+  let all := List.concat (map (shift_node true from k) nodes) in
+  (NoDup (List.concat nodes) -> NoDup all) /\ forall s, In s all -> ~ (from <= s < from + k).
+Proof. exact HoistProofs.shift_all_keeps_apart. Qed.
+Print Assumptions shift_all_keeps_apart.
+
+Theorem unshifted_owner_collides :
+  exists from k nodes, NoDup (List.concat nodes) /\
+    ~ NoDup (shift_node true from k (nth 0 nodes []) ++ shift_node false from k (nth 1 nodes [])).
+Proof. exact HoistProofs.unshifted_owner_collides. Qed.
+Print Assumptions unshifted_owner_collides.
+
+(* every Expr variant that owns variables has an arm in Expr::shift_vars
+   (both lists regenerated from ir/mod.rs) *)
+Theorem shift_vars_covers_owners : shift_vars_complete = true.
+Proof. exact HoistProofs.shift_vars_covers_owners. Qed.
+Print Assumptions shift_vars_covers_owners.
+
+(* the IR traversal (on which hoisting, shift_vars, CSE and hashing rely) visits the expression of
+   every quantifier that has one -- except the percentage, which is the recorded finding
+   C03:hoisting:verdict-differs:percentage-quantifier (lists regenerated from ir/mod.rs, ir/dfs.rs) *)
+Theorem quantifier_exprs_traversed :
+  forall v, In v quantifier_expr_variants -> In v quantifier_traversed_variants \/ v = "Percentage"%string.
+Proof. exact HoistProofs.quantifier_exprs_traversed. Qed.
+Print Assumptions quantifier_exprs_traversed.
 
 (* ---------------------------------------------------------------- Teddy vs naive search *)
 (* for every assignment of patterns to buckets and every mask length not
